@@ -289,6 +289,8 @@ def body_chunk(rng):
 
 
 def gen_C03(rng, count, tier):
+    # over real sockets: a response larger than every buffer, read by a client that pauses for eleven (virtual) seconds
+    yield ("tls", "plain slowread")
     for i in range(count):
         ops = api_history(rng)
         k = rng.randrange(10)
@@ -1384,6 +1386,7 @@ def fuzz_api(rng):
 def gen_C11(rng, count, tier):
     # liveness over real sockets: a client that never reads a huge response must not stall the engine
     yield ("tls", "plain stall")
+    yield ("tls", "plain slowread")
     # several clients at once with a small accept backlog; one leaves while the others are still sending
     yield ("tls", "plain crowd")
     # every other component the statement names: response parser and relay (proxy), range parser,
